@@ -1,4 +1,5 @@
 import ZipVerif.Gen.ReadPaths
+import ZipVerif.Gen.StreamPaths
 import ZipVerif.Tie.Records
 import ZipVerif.Tie.Mangled
 /-
@@ -17,6 +18,9 @@ of the model's view `FileData` of the entry's `ZipFileData` (`Tie.Records.dataOf
 So C03's "the reader reports … with the names, comments, sizes, CRC, method, timestamp, attributes/Unix mode, extra
 data and offsets recorded there" rests on translated code from the parser to the accessor: swapping two accessors,
 returning another field or changing the `/ 10` split breaks an obligation here.
+
+The accessors of the streaming reader's `ZipStreamFileMetadata` (read/stream.rs: `name`, `name_raw`, `is_dir`, `is_file`,
+`comment`, `data_start`, `unix_mode`) are tied the same way (`tie_stream_*`).
 
 Trusted vocabulary: `Cow<ZipFileData>` auto-deref = `Rs.Cow.get`; `AtomicU64::load` of types.rs = the field's value
 (the main translation holds the cell as its value; the stores are C20's subject); `str::chars().rev().next()` = the
@@ -80,6 +84,38 @@ example : isDir "a/b/".toList = true ∧ isDir "a\\".toList = true ∧ isDir "a/
 theorem tie_unix_mode (f : Gen.ZipFile) : Gen.ZipFile.unix_mode f = some (view f).unixMode := by
   unfold Gen.ZipFile.unix_mode
   rw [Tie.Types.tie_unix_mode f.data.get (view f) ⟨rfl, rfl, rfl, rfl, rfl, rfl⟩]
+  rfl
+
+/-! ### the same accessors of the streaming reader's `ZipStreamFileMetadata` (read/stream.rs) -/
+
+def sview (m : Gen.ZipStreamFileMetadata) : FileData := dataOf m._0
+
+theorem tie_stream_name (m : Gen.ZipStreamFileMetadata) : Gen.ZipStreamFileMetadata.name m = some (sview m).fileName := rfl
+theorem tie_stream_name_raw (m : Gen.ZipStreamFileMetadata) :
+    Gen.ZipStreamFileMetadata.name_raw m = some (sview m).fileNameRaw := rfl
+theorem tie_stream_comment (m : Gen.ZipStreamFileMetadata) :
+    Gen.ZipStreamFileMetadata.comment m = some (sview m).fileComment := rfl
+theorem tie_stream_data_start (m : Gen.ZipStreamFileMetadata) :
+    Gen.ZipStreamFileMetadata.data_start m = some (sview m).dataStart := rfl
+
+theorem tie_stream_is_dir (m : Gen.ZipStreamFileMetadata) (n : Name) (hname : (sview m).fileName = utf8Encode n) :
+    Gen.ZipStreamFileMetadata.is_dir m = some (isDir n) := by
+  unfold Gen.ZipStreamFileMetadata.is_dir
+  rw [tie_stream_name]
+  simp only [Id.run, Rs.L.id_pure, hname, chars_encode, List.head?_reverse]
+  unfold isDir
+  cases n.getLast? <;> rfl
+
+theorem tie_stream_is_file (m : Gen.ZipStreamFileMetadata) (n : Name) (hname : (sview m).fileName = utf8Encode n) :
+    Gen.ZipStreamFileMetadata.is_file m = some (!isDir n) := by
+  unfold Gen.ZipStreamFileMetadata.is_file
+  rw [tie_stream_is_dir m n hname]
+  rfl
+
+theorem tie_stream_unix_mode (m : Gen.ZipStreamFileMetadata) :
+    Gen.ZipStreamFileMetadata.unix_mode m = some (sview m).unixMode := by
+  unfold Gen.ZipStreamFileMetadata.unix_mode
+  rw [Tie.Types.tie_unix_mode m._0 (sview m) ⟨rfl, rfl, rfl, rfl, rfl, rfl⟩]
   rfl
 
 end ZipVerif.Tie.Accessors
